@@ -484,6 +484,16 @@ namespace occa {
       return ref->toJson(j, name);
     }
 
+    // Builtin vector types (float2, int4, ...) are stored as tuples
+    // but are builtins: fromJson should give back the builtin itself
+    if (tuple_ && (this == &dtype_t::getBuiltin(name_))) {
+      j.clear();
+      j.asObject();
+      j["type"] = "builtin";
+      j["name"] = name_;
+      return;
+    }
+
     if (enum_) {
       return enum_->toJson(j, name);
     } else if (struct_) {
